@@ -402,15 +402,28 @@ class Engine(object):
             if single:
                 c = cmds[0]
                 n_args = self.cur_n_args = 3 - self.tape.draw_small(4, 0.3)
-                result = self.conn.send_scp(
-                    self.buffer_size, c.x, c.y, c.p, c.cmd, c.id, c.arg2,
-                    c.arg3, c.data, n_args, c.extra)
+                args = [self.buffer_size, c.x, c.y, c.p, c.cmd, c.id,
+                        c.arg2, c.arg3, c.data, n_args, c.extra]
+                # trailing arguments left to their documented defaults
+                # (no extra time-out, three arguments expected, no payload)
+                if c.extra == 0.0 and self.tape.draw(2):
+                    args.pop()
+                    if n_args == 3 and self.tape.draw(2):
+                        args.pop()
+                        if c.data == b"" and self.tape.draw(2):
+                            args.pop()
+                    self.w.probe("send_scp_default_arguments")
+                result = self.conn.send_scp(*args)
                 # send_scp installs its own callback
                 c.callbacks = 1
             else:
                 calls = [scp.scpcall(c.x, c.y, c.p, c.cmd, c.id, c.arg2,
                                      c.arg3, c.data, self.make_callback(c),
-                                     c.extra) for c in cmds]
+                                     c.extra)
+                         if c.extra != 0.0 or c.id % 3 else
+                         scp.scpcall(c.x, c.y, c.p, c.cmd, c.id, c.arg2,
+                                     c.arg3, c.data, self.make_callback(c))
+                         for c in cmds]
                 it = iter(calls) if self.tape.draw(2) else calls
                 self.conn.send_scp_burst(self.buffer_size, window, it)
         except scp.TimeoutError as e:
